@@ -275,6 +275,16 @@ def run(ctx):
                   where=loc(lc.get_result, lc.get_result.node), path=_escape_path(ctx, lc.get_result, cls))
         # ---------------------------------------------------------------- R5 who may write
         check_writers(ctx, cls, lc, seen_funcs)
+    # the termination of the drain loop in _get_result relies on the pipe read mapping every transport failure to queue.Empty
+    PEc = P.cls('PipeEndpoint')
+    getf = PEc.methods.get('get')
+    ctx.require(getf is not None, 'PipeEndpoint.get not found')
+    ctx.used(getf)
+    lat = ctx.an.lattice
+    esc = sorted({x for x, cause in ctx.an.summary(getf, PEc) if any(lat.is_sub(x, b) for b in ('OSError', 'EOFError'))})
+    ctx.check('R4', 'PipeEndpoint.get maps EOF and every transport failure to queue.Empty', not esc, 'PipeEndpoint.get', 'escape:' + ','.join(esc),
+              f'{esc} raised by reading the pipe of a dead child is not reported as queue.Empty: the accessors of a dead process worker raise (or the drain loop of _get_result never ends)',
+              where=loc(getf, getf.node))
     # not-run store
     W = P.cls('Worker')
     init = W.methods['__init__']
